@@ -146,10 +146,18 @@ def install_io(it: Interp, vfs: VFS) -> None:
     def dump(obj: Any, fp: Any, **kw: Any) -> None:
         fp.write(dumps(obj, **kw))
 
+    def loads(data: Any, **kw: Any) -> Any:
+        try:
+            return json.loads(data)
+        except json.JSONDecodeError as exc:
+            raise AbsRaise(f"JSONDecodeError: {exc}") from exc
+        except TypeError as exc:
+            raise AbsRaise(f"TypeError: {exc}") from exc
+
     def load(fp: Any, **kw: Any) -> Any:
         data = fp.read()
         if isinstance(data, (bytes, str)):
-            return json.loads(data)
+            return loads(data)
         return data
     it.native["builtins.open"] = _open
     it.native["pathlib.Path"] = lambda *parts: PathStub(vfs, "/".join(str(x) for x in parts), _open)
@@ -158,7 +166,7 @@ def install_io(it: Interp, vfs: VFS) -> None:
     it.native["json.dumps"] = dumps
     it.native["json.dump"] = dump
     it.native["json.load"] = load
-    it.native["json.loads"] = lambda s, **kw: json.loads(s)
+    it.native["json.loads"] = loads
     it.native["os.path.abspath"] = lambda p: p
     it.native["os.path.join"] = lambda *a: "/".join(x for x in a if x)
     it.native["os.sep"] = "/"
